@@ -196,7 +196,7 @@ def check_file(text, v):
 def run_case(case):
     v = case['v']
     genargs.run_prior(case.get('prior'))
-    outdir = genargs.fresh_outdir()
+    outdir = genargs.fresh_outdir(nested=v['seed'] % 3 == 0)
     argv = genargs.build_argv(v, outdir)
     status, code, err = genargs.run_generator(argv, v['seed'])
     if status != 'ok':
